@@ -36,10 +36,10 @@ func runC03(tier, replay string) {
 	r.Assume("SQL faults are injected at statement level (ExecContext/QueryContext) through a wrapping database/sql driver; COMMIT failure is simulated by the tx.commit.before-db hook; faults are errors returned to pithos, not torn writes (crashes are C10)")
 	ctx0 := context.Background()
 	stacks := []string{"fs", "sql"}
-	nh, steps := 2, 14
+	nh, steps := 5, 24
 	if r.Thorough() {
 		stacks = []string{"fs", "sql", "tink>fs", "outbox>fs", "ec21", "named"}
-		nh, steps = 5, 30
+		nh, steps = 10, 50
 	}
 	only, onlyStack, onlyStep := -1, "", -1
 	if replay != "" {
